@@ -245,10 +245,30 @@ def replicate (c : Cluster) (down hangNext stuck : List Nat) (t : Nat) (iss : Is
     (c', stuck, if ok then .ack else .err)
 
 /-- The requests to all selected replicas (they are independent: one per replica). -/
-def replicateAll (c : Cluster) (down hangNext stuck : List Nat) (targets : List Nat) (iss : Issued) :
-    Cluster × List Nat × List Reply :=
-  targets.foldl (fun acc t =>
-    let (c', stuck', r) := replicate acc.1 down hangNext acc.2.1 t iss
-    (c', stuck', acc.2.2 ++ [r])) (c, stuck, [])
+def replicateAll (c : Cluster) (down hangNext stuck : List Nat) : List Nat → Issued → Cluster × List Nat × List Reply
+  | [], _ => (c, stuck, [])
+  | t :: ts, iss =>
+    let r1 := replicate c down hangNext stuck t iss
+    let r2 := replicateAll r1.1 down hangNext r1.2.1 ts iss
+    (r2.1, r2.2.1, r1.2.2 :: r2.2.2)
+
+/-- The outcome of a write issued at node `i` at a level whose selected replicas are `targets`. -/
+inductive WriteOut where
+  | localFailed                       -- the issuer's own handler failed: nothing is sent
+  | done (r : Except (Nat × Nat) Unit)
+  deriving Repr
+
+/-- `ReplicatedStoreHandle::put / del / put_many / del_many` after node selection: the local
+handler, one request per selected replica, `handle_consistency_distribution`.  (The registration
+with the task distributor for the later batch broadcast is `ops`: the operation is on record
+whatever the outcome.) -/
+def write (c : Cluster) (down hangNext stuck : List Nat) (i : Nat) (targets : List Nat) (iss : Issued) :
+    Cluster × List Nat × WriteOut :=
+  let (c1, okLocal) := applyAt c i 0 iss
+  let c1 := { c1 with ops := c1.ops ++ [(i, iss)] }
+  if !okLocal then (c1, stuck, .localFailed)
+  else
+    let (c2, stuck', replies) := replicateAll c1 down hangNext stuck targets iss
+    (c2, stuck', .done (distribute replies))
 
 end Datacake.Cluster
